@@ -86,6 +86,61 @@ func skip(why string) *core.Violation {
 	return nil
 }
 
+// ---------------------------------------------------------------------------- known findings inside one history
+
+// A history of sub-check (b)/(c) has many steps; a step that hits an *open known finding*
+// must not hide the steps behind it.  verdicts remembers the first known violation, lets
+// the interpreter repair the fixture and go on, and stops at the first violation that is
+// not known.  (core.Run does the final matching again; this only decides "continue or not".)
+var (
+	knownOnce sync.Once
+	knownSigs map[string]bool
+)
+
+func isKnown(sig string) bool {
+	knownOnce.Do(func() {
+		knownSigs = map[string]bool{}
+		b, err := os.ReadFile(os.Getenv("VERIF_KNOWN"))
+		if err != nil {
+			return
+		}
+		for _, ln := range strings.Split(string(b), "\n") {
+			var k struct{ Property, Signature, Status string }
+			if json.Unmarshal([]byte(strings.TrimSpace(ln)), &k) == nil && k.Property == "C15" && k.Status == "open" {
+				knownSigs[k.Signature] = true
+			}
+		}
+	})
+	return knownSigs[sig]
+}
+
+type verdicts struct {
+	known *core.Violation // first known finding met
+	fatal *core.Violation // first violation that is not known
+}
+
+// stop records v and reports whether the history must end here.
+func (r *verdicts) stop(v *core.Violation) bool {
+	if v == nil {
+		return false
+	}
+	if isKnown(v.Sig) {
+		if r.known == nil {
+			r.known = v
+		}
+		return false
+	}
+	r.fatal = v
+	return true
+}
+
+func (r *verdicts) result() *core.Violation {
+	if r.fatal != nil {
+		return r.fatal
+	}
+	return r.known
+}
+
 // ---------------------------------------------------------------------------- goroutine census
 
 type gInfo struct {
@@ -719,6 +774,24 @@ func (c *cli) pending() []byte {
 	buf := make([]byte, 4096)
 	n, _ := c.conn.Read(buf)
 	return buf[:n]
+}
+
+// sendChunks writes each chunk with its own write call, pausing in between.
+func (c *cli) sendChunks(chunks [][]byte) error {
+	for i, ch := range chunks {
+		if len(ch) == 0 {
+			continue
+		}
+		if i > 0 {
+			time.Sleep(segPause)
+		}
+		n, err := c.conn.Write(ch)
+		c.written += uint64(n)
+		if err != nil {
+			return err
+		}
+	}
+	return nil
 }
 
 func (c *cli) closeFIN() {
